@@ -36,6 +36,8 @@ def worker_main(args):
         print(json.dumps(dict(id=args.worker, verdict='error', errors=['unknown obligation'])))
         return 0
     ob = ob[0]
+    ob.known_claims = [c for k in load_known() if k.get('status') == 'open' and k.get('property') == args.prop
+                       and k.get('obligation') == ob.id for c in (k.get('claims') or [''])]
     if ob.kind == 'custom':
         res = ob.body(args.seed, args.tier)
     else:
